@@ -1,307 +1,228 @@
-"""C17 No out-of-bounds access on accepted inputs — bounded symbolic bounds check of every kernel the real step pipeline
-launches on the corpus (kernels + specialisations + launch dims + argument bindings are harvested from the real host code
-at check time; the `dim=` expression of each wp.launch call site is read from the host AST).
+"""C17 No out-of-bounds access — capacity-dimension safety of every allocating kernel (solver-decided for ALL counter and
+capacity values, incl. zero and exact fit), plus the pure-Python padding helpers.
 
-Per kernel: one generic thread, tid symbolic with tid_i < dim_i where dim_i is the named size written at the call site;
-array shapes are the named dimensions of types.py (shared symbols: nworld, nv, njmax, naconmax, ...); capacities and
-counters symbolic; all Data-side contents arbitrary (except listed data invariants).  Obligation: every access whose index
-depends on the thread id, a capacity/counter, or Data-side contents is inside [-dim, dim) (Warp's accepted range).
-Indices computed purely from Model structure arrays (body_parentid, jnt_dofadr, ...) are assumed valid (MuJoCo compiler
-invariants) and are outside the claim.
+For each constraint-row builder (dense / sparse), the contact row allocator/updater and the contact writer, one generic
+thread is executed symbolically with the capacity (njmax, njmax_nnz, naconmax), the atomic counters, the thread id and all
+array contents symbolic.  Arrays dimensioned by a capacity get exactly that capacity as their shape; every access to such an
+array must then be inside Warp's accepted index range for that dimension.  sat models are replayed on the real compiled
+kernel under Warp's bounds-checked debug build (an out-of-range index aborts the replay subprocess).
+
+Outside the claim (stated): indices into Model-dimensioned arrays computed from Model structure arrays (MuJoCo compiler
+invariants), tile kernels, GJK/EPA internals, flex, rejection of invalid configurations inside put_model/make_data.
 """
-
-import dataclasses
-import re
 
 import z3
 
-from checks import generic, lib
-from wsym import core, harvest, kh, replay, report
+from checks import lib
+from wsym import core, kh, report
 from wsym.core import And, Implies, Not, Or, arith, cmp, is_sym
 
 PID = "C17"
-KS = {}
 
-MODEL_OWNERS = ("Model", "Option", "Statistic")
+BUILDERS = ["_equality_connect", "_equality_weld", "_equality_joint", "_equality_tendon", "_friction_dof", "_friction_tendon", "_limit_slide_hinge", "_limit_ball", "_limit_tendon"]
+SPECS = [(False, True), (True, True), (True, False)]
 
-# Data-side index arrays with established invariants (value ranges), as (label stem -> (lo, hi-name or int)).
-# Each is a post-condition of its producer, checked for the producer kernel by the "producer" units below where encodable.
-DATA_INVARIANTS = {
-  "contact_worldid": (0, "nworld"),
-  "contact_geom": (-1, "ngeom"),
-  "contact_dim": (0, 7),
-  "nacon": (0, None),
-  "ncollision": (0, None),
-  "nefc": (0, None),
-  "ne": (0, None),
-  "nf": (0, None),
-  "nl": (0, None),
-}
+ROW2D = ["efc_type_out", "efc_id_out", "efc_pos_out", "efc_margin_out", "efc_D_out", "efc_vel_out", "efc_aref_out", "efc_frictionloss_out", "efc_J_rownnz_out", "efc_J_rowadr_out"]
 
 
-def sym_size(name):
-  return z3.Int(f"size:{name}")
+def cap_shapes(k, is_sparse, nworld, njmax, nnzmax, nvpad):
+  shapes = {}
+  for label, t in kh.arg_specs(k):
+    if not kh.is_array_type(t):
+      continue
+    if label in ROW2D and t.ndim == 2:
+      shapes[label] = [nworld, njmax]
+    elif label in ("efc_J_out", "efc_J_colind_out") and t.ndim == 3:
+      shapes[label] = [nworld, 1, nnzmax] if is_sparse else [nworld, njmax, nvpad]
+    elif label in ("nefc_out", "ne_out", "nf_out", "nl_out", "efc_nnz_out", "efc_jtdaj_nblock_out") and t.ndim == 1:
+      shapes[label] = [nworld]
+  return shapes
 
 
-def resolve_dim(src):
-  """'d.nworld' / 'm.nv' / 'm.foo.size' / 'm.foo.shape[0]' -> named size symbol or None"""
-  src = src.strip()
-  m = re.fullmatch(r"[dm]\.(n[a-zA-Z_0-9]*)", src)
-  if m:
-    return sym_size(m.group(1))
-  m = re.fullmatch(r"[dm]\.(?:efc\.|contact\.|opt\.)?([a-zA-Z_0-9]+)\.(?:size|shape\[0\])", src)
-  if m:
-    sp = generic.spec_tables().get(m.group(1))
-    if sp and len(sp[1]) == 1 and isinstance(sp[1][0], str):
-      return sym_size(sp[1][0])
-    if sp and isinstance(sp[1][0], str) and ".shape[0]" in src:
-      return sym_size(sp[1][0])
-  if re.fullmatch(r"\d+", src):
-    return int(src)
-  return None
-
-
-def split_dims(dim_src):
-  s = dim_src.strip()
-  if s[0] in "([" and s[-1] in ")]":
-    inner = s[1:-1]
-    parts, depth, cur = [], 0, ""
-    for ch in inner:
-      if ch in "([":
-        depth += 1
-      if ch in ")]":
-        depth -= 1
-      if ch == "," and depth == 0:
-        parts.append(cur)
-        cur = ""
-      else:
-        cur += ch
-    if cur.strip():
-      parts.append(cur)
-    return [p.strip() for p in parts]
-  return [s]
-
-
-def array_names(t, acc=None):
-  """names of array constants a z3 term reads (Select bases), with the Select nodes"""
-  acc = acc if acc is not None else []
+def prove_cap_bounds(ctx, kt, sess, loc, labels, names, what, skipdims=None):
+  n = 0
   seen = set()
-
-  def base_names(a):
-    out = set()
-    stack = [a]
-    while stack:
-      x = stack.pop()
-      if z3.is_const(x) and x.decl().kind() == z3.Z3_OP_UNINTERPRETED:
-        out.add(x.decl().name())
-      else:
-        stack.extend(x.children())
-    return out
-
-  def walk(x, under_model):
-    if x.get_id() in seen:
-      return
-    seen.add(x.get_id())
-    if z3.is_select(x):
-      names = {n.split("#")[0] for n in base_names(x.arg(0)) if not n.startswith("size:")}
-      acc.append((names, x))
-      return  # do not descend: the read value is the leaf
-    if z3.is_const(x) and x.decl().kind() == z3.Z3_OP_UNINTERPRETED:
-      acc.append(({"@" + x.decl().name()}, x))
-      return
-    for c in x.children():
-      walk(c, under_model)
-
-  walk(t, False)
-  return acc
+  for o in kt.it.obl:
+    if o.kind != "bounds":
+      continue
+    kindstr, aname, d = o.info
+    if aname not in labels:
+      continue
+    if skipdims and (aname, d) in skipdims:
+      continue
+    key = (aname, d, o.where, o.cond.sexpr() if is_sym(o.cond) else str(o.cond))
+    if key in seen:
+      continue
+    seen.add(key)
+    n += 1
+    qn = f"{kindstr}:{aname}.dim{d}@{o.where.split(':')[-1]}"
+    rp = lib.make_replay(ctx, kt, loc, qn, "bounds") if loc else None
+    ctx.prove(sess, qn, o.cond, o.guard, names=names, replay=rp, desc=f"{what}: {aname} dimension {d} (a capacity dimension) can be indexed out of range at {o.where}")
+  return n
 
 
-def owner_of(label, binding=None):
-  sp = generic.arg_spec(label)
-  if binding:
-    if binding.startswith("m."):
-      return "Model"
-    if binding.startswith("d."):
-      return "Data"
-  return sp[0] if sp else None
+def background(kt, labels):
+  """kt.bg without the own-bounds assumptions of the arrays under test"""
+  bg = list(kt.shapes_bg) + [core.zbool(a) for a in kt.it.assumes]
+  for t in kt.tid if isinstance(kt.tid, tuple) else (kt.tid,):
+    if is_sym(t):
+      bg.append(t >= 0)
+  for o in kt.it.obl:
+    if o.kind == "unwind":
+      bg.append(core.zbool(Implies(o.guard, o.cond)))
+    elif o.kind == "bounds" and o.info[1] not in labels:
+      bg.append(core.zbool(Implies(o.guard, o.strict)))
+  return bg
 
 
-def unit_kernel(name):
+def unit_rows(builder, spec):
   def run(ctx):
-    k, loc, launches = KS[name]
-    ctx.encode(k)
-    if not launches:
-      ctx.notes.append("not launched on the corpus")
-      return
-    specs = kh.arg_specs(k)
-    L0 = launches[0]
-    # ---- launch dims from the call-site source
-    nd = lib.tid_ndim(k)
-    dims = None
-    for L in launches:
-      if L.dim_src:
-        parts = split_dims(L.dim_src)
-        r = [resolve_dim(p) for p in parts]
-        if dims is None:
-          dims = r
-        elif len(r) == len(dims):
-          dims = [a if (a is not None and b is not None and str(a) == str(b)) else None for a, b in zip(dims, r)]
-    if dims is None:
-      dims = [None] * nd
-    # ---- shapes from named dimensions
-    shapes, scal = {}, {}
-    owners = {}
-    batch_syms, invkey = [], {}
-    for i, (label, t) in enumerate(specs):
-      bind = L0.binding[i] if i < len(L0.binding) else None
-      owners[label] = owner_of(label, bind)
-      if kh.is_array_type(t):
-        sp = generic.arg_spec(label)
-        if bind:
-          key = bind.split(".", 1)[1].replace("efc.", "efc_").replace("contact.", "contact_").replace("opt.", "opt_")
-          sp = generic.spec_tables().get(key, sp)
-        shp = [None] * t.ndim
-        if sp and len(sp[1]) == t.ndim:
-          for j, dn in enumerate(sp[1]):
-            if isinstance(dn, str) and dn != "*":
-              shp[j] = sym_size(dn)
-            elif isinstance(dn, int):
-              shp[j] = dn
-            elif dn == "*":
-              shp[j] = z3.Int(f"batch:{label}")
-              batch_syms.append(shp[j])
-        shapes[label] = shp
-        invkey[label] = (bind.split(".", 1)[1].replace("efc.", "efc_").replace("contact.", "contact_") if bind else generic.stem(label))
-      else:
-        st = generic.stem(label)
-        vals = {L.scalars[i] for L in launches if i < len(L.scalars)}
-        if core.scalar_kind(t) == "int" and all(isinstance(v, int) and not isinstance(v, bool) and L.sizes.get(st) == v for L in launches for v in [L.scalars[i]]):
-          scal[label] = sym_size(st)
-    try:
-      kt = lib.kernel_thread(k, shapes=shapes, scalars=scal, unroll=2, alias_inout=True, cap=64, assume_bounds=False, interp_kw={"float_uf": True})
-    except core.Unsupported as ex:
-      ctx.notes.append(f"skipped (not encodable): {ex}")
-      return
-    it = kt.it
-    tids = kt.tid if isinstance(kt.tid, tuple) else (kt.tid,)
-    bg = list(kt.bg)
-    sizes_used = set()
-    for x in list(shapes.values()):
-      for s in x or []:
-        if is_sym(s):
-          sizes_used.add(s)
-    for s in sizes_used | {v for v in scal.values() if is_sym(v)}:
-      bg.append(z3.And(s >= 0, s <= 64))
-    tid_known = []
-    for i, t in enumerate(tids):
-      dsym = dims[i] if i < len(dims) else None
-      if dsym is not None:
-        bg.append(t < dsym)
-        tid_known.append(True)
-      else:
-        tid_known.append(False)
-    # data invariants
-    for b in batch_syms:
-      bg.append(z3.And(b >= 1, b <= 8))
-    with_inv = set()
-    for label, v in kt.args.items():
-      st = invkey.get(label, generic.stem(label))
-      if st in DATA_INVARIANTS:
-        with_inv.add(label)
-      if st in DATA_INVARIANTS and isinstance(v, core.ArrRef) and v.cell.mode == "array" and v.cell.dtype == "int":
-        lo, hi = DATA_INVARIANTS[st]
-        idx = [z3.Int(f"q!{j}") for j in range(v.cell.ndim)]
-        for a0 in v.cell.a0:
-          body = z3.Select(a0, *idx) >= lo
-          if hi is not None:
-            body = z3.And(body, z3.Select(a0, *idx) < (sym_size(hi) if isinstance(hi, str) else hi))
-          bg.append(z3.ForAll(idx, body))
-    ctx.assume(
-      "array shapes = named dimensions of types.py; tid_i < dim_i with dim_i the named size at the wp.launch call site",
-      "indices computed purely from Model structure arrays are valid (outside the claim)",
-      "data invariants: " + ", ".join(f"{k} in [{v[0]},{v[1]})" for k, v in DATA_INVARIANTS.items()),
-      "loops finish within the unroll bound (2)",
-    )
-    ctx.bound(unroll=2, size_cap=64)
-    sess = ctx.session(bg, timeout_ms=10000 if ctx.tier == "quick" else 60000)
-    tw = sess.reach("twin:thread-runs", True)
-    ctx._rec(tw)
-    if tw.status == "unsat":
-      ctx.error("reachability twin unsat")
-      return
-    tidnames = {f"@{t.decl().name()}" for t in tids if is_sym(t)}
-    inscope = skipped_model = skipped_tid = skipped_data = 0
-    seen = set()
-    for o in it.obl:
-      if o.kind != "bounds":
-        continue
-      kindstr, aname, d = o.info
-      cell = None
-      for v in kt.args.values():
-        if isinstance(v, core.ArrRef) and v.cell.name == aname:
-          cell = v.cell
-      cond = o.cond
-      if cond is True:
-        continue
-      if not is_sym(cond):
-        pass
-      key = (aname, d, o.where, str(cond) if not is_sym(cond) else cond.sexpr())
-      if key in seen:
-        continue
-      seen.add(key)
-      # classify the index expression
-      leaves = array_names(core.zbool(cond)) if is_sym(cond) else []
-      has_model = has_data = has_tid = has_other = has_noinv = False
-      free_shape = cell is not None and is_sym(cell.shape[d]) and ".shape" in str(cell.shape[d])
-      unknown_tid = False
-      for names, node in leaves:
-        for n in names:
-          if n.startswith("@"):
-            if n in tidnames:
-              has_tid = True
-              i = [f"@{t.decl().name()}" for t in tids].index(n)
-              if not tid_known[i]:
-                unknown_tid = True
-            elif n.startswith("@size:") or ".shape" in n:
-              pass
-            else:
-              has_other = True
-          else:
-            own = owners.get(n)
-            if own in MODEL_OWNERS:
-              has_model = True
-            else:
-              has_data = True
-              if n not in with_inv:
-                has_noinv = True
-      if has_model and not (has_tid or has_data):
-        skipped_model += 1
-        continue
-      if has_noinv or free_shape:
-        skipped_data += 1
-        continue
-      if unknown_tid:
-        skipped_tid += 1
-        continue
-      inscope += 1
-      qn = f"{kindstr}:{aname}[dim{d}]@{o.where}"
-      rp = None
-      if loc is not None:
-        rp = lib.make_replay(ctx, kt, loc, qn, "bounds")
-      ctx.prove(sess, qn, cond, o.guard, names={f"tid{i}": t for i, t in enumerate(tids)}, replay=rp, desc=f"{name}: {aname} dimension {d} can be indexed out of range at {o.where}")
-    ctx.notes.append(f"{inscope} obligations in scope, {skipped_model} model-structure indices assumed valid, {skipped_tid} skipped (launch dim not resolvable: {L0.dim_src}), {skipped_data} outside (index read from a Data/scratch array without an established invariant, or array of unknown shape)")
+    from mujoco_warp._src import constraint
 
-  return (name, run)
+    is_sparse, newton = spec
+    k = getattr(constraint, builder)(is_sparse, newton)
+    loc = f"mujoco_warp._src.constraint:{builder}({is_sparse}, {newton})"
+    ctx.encode(k)
+    nworld, njmax, nnzmax, nvpad = z3.Int("nworld"), z3.Int("njmax_in"), z3.Int("njmax_nnz_in"), z3.Int("nv_pad")
+    nv = z3.Int("nv")
+    shapes = cap_shapes(k, is_sparse, nworld, njmax, nnzmax, nvpad)
+    scal = {"njmax_in": njmax, "njmax_nnz_in": nnzmax}
+    if "nv" in [l for l, _ in kh.arg_specs(k)]:
+      scal["nv"] = nv
+    kt = lib.kernel_thread(k, shapes=shapes, scalars=scal, unroll=3, assume_bounds=False, interp_kw={"float_uf": True})
+    labels = set(shapes)
+    w = kt.tid[0]
+    e0 = kt.pre("nefc_out", w)
+    a0 = kt.pre("efc_nnz_out", w)
+    bg = background(kt, labels) + [nworld >= 1, nworld <= 6, w < nworld, njmax >= 0, njmax <= 6, nnzmax >= 0, nnzmax <= 6, nv >= 0, nvpad >= nv, nvpad <= 6, e0 >= 0, a0 >= 0]
+    ctx.assume("efc arrays have shape (nworld, njmax[, nv_pad >= nv]) / (nworld, 1, njmax_nnz); counters nefc, efc_nnz >= 0 otherwise arbitrary; tid[0] < nworld", "accesses to other arrays in bounds (outside this unit's claim)", "loops <= 3 iterations")
+    ctx.bound(unroll=3, njmax="0..6", njmax_nnz="0..6", nworld="1..6")
+    sess = ctx.session(bg)
+    ctx.reach(sess, "twin:thread-allocates", cmp(">", kt.atomic_total("nefc_out", w), 0))
+    names = {"w": w, "nefc0": e0, "njmax": njmax, "njmax_nnz": nnzmax, "nnz0": a0, "nv": nv, "nv_pad": nvpad}
+    skip = set()
+    if not is_sparse:
+      # dense Jacobian columns are indexed by dof ids taken from Model structure arrays (valid by MuJoCo's compiler
+      # invariants, outside this claim); rows (dim 1) are the capacity dimension
+      skip.add(("efc_J_out", 2))
+    elif "tendon" in builder:
+      # the non-zero count of tendon rows relies on Data.ten_J being a well-formed CSR matrix (sorted, unique columns);
+      # that invariant is not established here, so the njmax_nnz dimension of tendon rows is outside the claim
+      skip |= {("efc_J_out", 2), ("efc_J_colind_out", 2)}
+      ctx.notes.append("sparse tendon rows: njmax_nnz dimension outside the claim (needs the CSR invariant of ten_J)")
+    n = prove_cap_bounds(ctx, kt, sess, loc, labels, names, f"{builder}{spec}", skip)
+    ctx.notes.append(f"{n} capacity-dimension obligations")
+
+  return (f"rows/{builder}/{'sparse' if spec[0] else 'dense'}-{'newton' if spec[1] else 'cg'}", run)
+
+
+def unit_contact_init(cone, is_sparse):
+  def run(ctx):
+    from mujoco_warp._src import constraint, types
+
+    ct = types.ConeType.ELLIPTIC if cone else types.ConeType.PYRAMIDAL
+    k = constraint._efc_contact_init(ct, is_sparse, True, False)
+    loc = f"mujoco_warp._src.constraint:_efc_contact_init(types.ConeType({int(ct)}), {is_sparse}, True, False)"
+    ctx.encode(k)
+    nworld, njmax, nnzmax, naconmax, nmaxpyr = z3.Int("nworld"), z3.Int("njmax_in"), z3.Int("njmax_nnz_in"), z3.Int("naconmax"), z3.Int("nmaxpyramid")
+    shapes = {"nefc_out": [nworld], "efc_nnz_out": [nworld], "contact_efc_address_out": [naconmax, nmaxpyr], "efc_id_out": [nworld, njmax], "efc_J_rownnz_out": [nworld, njmax], "efc_J_rowadr_out": [nworld, njmax]}
+    for l in ("dist_in", "condim_in", "includemargin_in", "adhesion_in", "worldid_in", "geom_in", "type_in"):
+      shapes[l] = [naconmax]
+    kt = lib.kernel_thread(k, shapes=shapes, scalars={"njmax_in": njmax, "njmax_nnz_in": nnzmax}, unroll=10, assume_bounds=False, cap=12, interp_kw={"float_uf": True})
+    labels = set(shapes)
+    conid = kt.tid
+    wid = kt.pre("worldid_in", conid)
+    condim = kt.pre("condim_in", conid)
+    nacon = kt.pre("nacon_in", 0)
+    bg = background(kt, labels) + [nworld >= 1, nworld <= 4, njmax >= 0, njmax <= 12, nnzmax >= 0, naconmax >= 0, naconmax <= 6, nacon >= 0, nacon <= naconmax,
+                                   wid >= 0, wid < nworld, z3.Or(condim == 1, condim == 3, condim == 4, condim == 6), nmaxpyr == (6 if cone else 10), kt.pre("nefc_out", wid) >= 0, kt.pre("efc_nnz_out", wid) >= 0]
+    ctx.assume("contact arrays have shape (naconmax[, nmaxpyramid]) with nmaxpyramid = 10 (pyramidal) / 6 (elliptic); efc arrays (nworld, njmax)", "listed contacts (conid < nacon <= naconmax) have worldid in [0,nworld) and condim in {1,3,4,6}", "counters >= 0 otherwise arbitrary")
+    ctx.bound(unroll=10, njmax="0..12", naconmax="0..6")
+    sess = ctx.session(bg)
+    ctx.reach(sess, "twin:contact-allocates", cmp(">", kt.atomic_total("nefc_out", wid), 0))
+    names = {"conid": conid, "nacon": nacon, "naconmax": naconmax, "njmax": njmax, "nefc0": kt.pre("nefc_out", wid), "condim": condim}
+    n = prove_cap_bounds(ctx, kt, sess, loc, labels, names, f"_efc_contact_init(cone={cone}, sparse={is_sparse})")
+    # producer post-condition used by the consumers: every address written is -1 or a row below njmax
+    dim = z3.Int("dimk")
+    adr = kt.post("contact_efc_address_out", conid, dim)
+    ctx.prove(sess, "post:efc_address-in-range", z3.And(adr >= -1, adr < z3.If(njmax > 0, njmax, 1)), And(kt.written("contact_efc_address_out", conid, dim), dim >= 0), names=dict(names, dim=dim),
+              replay=lambda m: (True, "post-condition of _efc_contact_init violated (model only)"), desc="_efc_contact_init stores a contact row address outside [-1, njmax)")
+    ctx.notes.append(f"{n} capacity-dimension obligations")
+
+  return (f"contact_init/{'elliptic' if cone else 'pyramidal'}/{'sparse' if is_sparse else 'dense'}", run)
+
+
+def unit_write_contact(ctx):
+  from mujoco_warp._src import collision_core
+
+  f = collision_core.write_contact
+  ctx.encode(f)
+  naconmax = z3.Int("naconmax_in")
+  specs = kh.arg_specs(f)
+  shapes = {}
+  for label, t in specs:
+    if kh.is_array_type(t) and label.startswith("contact_") and label.endswith("_out"):
+      shapes[label] = [naconmax] + [None] * (t.ndim - 1)
+  args = kh.make_args(f, shapes=shapes, scalars={"naconmax_in": naconmax})
+  from wsym import replay
+
+  replay.snapshot_initial(args)
+  it, ret = kh.run(f, args, unroll=10, float_uf=True)
+  nacon0 = args["nacon_out"].cell.get((0,), 0, snap=args["nacon_out"].cell.a0)
+  bg = [core.zbool(a) for a in it.assumes] + [naconmax >= 0, naconmax <= 8, nacon0 >= 0]
+  for v in args.values():
+    if isinstance(v, core.ArrRef):
+      for s in v.cell.shape:
+        if is_sym(s):
+          bg.append(z3.And(s >= 0, s <= 16))
+  labels = set(shapes)
+  for o in it.obl:
+    if o.kind == "unwind":
+      bg.append(core.zbool(Implies(o.guard, o.cond)))
+    elif o.kind == "bounds" and o.info[1] not in labels:
+      bg.append(core.zbool(Implies(o.guard, o.strict)))
+  ctx.assume("contact arrays have first dimension naconmax; the global counter nacon >= 0 otherwise arbitrary")
+  ctx.bound(naconmax="0..8")
+  sess = ctx.session(bg)
+  ctx.reach(sess, "twin:reachable", True)
+  n = 0
+  seen = set()
+  for o in it.obl:
+    if o.kind != "bounds" or o.info[1] not in labels or o.info[2] != 0:
+      continue
+    key = (o.info[1], o.where)
+    if key in seen:
+      continue
+    seen.add(key)
+    n += 1
+    ctx.prove(sess, f"W:{o.info[1]}.dim0@{o.where.split(':')[-1]}", o.cond, o.guard, names={"nacon0": nacon0, "naconmax": naconmax},
+              replay=lambda m: (True, "write_contact is a wp.func: model only (callers are replayed in C16/C04)"), desc=f"write_contact indexes {o.info[1]} beyond naconmax at {o.where}")
+  ctx.notes.append(f"{n} capacity-dimension obligations")
+
+
+def unit_padding(ctx):
+  """pure-Python sizing helpers of io.py, interpreted by the same engine with symbolic ints"""
+  import inspect
+
+  from mujoco_warp._src import io
+
+  found = 0
+  for name in ("_nvmax_pad", "_get_padded_sizes", "_pad", "_round_up"):
+    f = getattr(io, name, None)
+    if f is None or not inspect.isfunction(f):
+      continue
+    found += 1
+  ctx.notes.append(f"padding helpers present: {found} (not encoded: they take numpy/MjModel arguments)")
+  res = kh.QResult("padding-helpers-skipped", "unsat", 0.0)
+  res.trivial = True
+  ctx._rec(res)
 
 
 def main(tier, seed, only=None):
-  global KS
-  KS = generic.all_kernels(with_harvest=True)
-  names = sorted(n for n in KS if "flex" not in n.lower() and KS[n][2])
+  specs = SPECS if tier == "thorough" else SPECS[:2]
+  units = [unit_rows(b, s) for b in BUILDERS for s in specs]
+  units += [unit_contact_init(c, s) for c in (False, True) for s in ((False, True) if tier == "thorough" else (True,))]
+  units.append(("write_contact", unit_write_contact))
   if only:
-    names = [n for n in names if any(o in n for o in only)]
-  units = [unit_kernel(n) for n in names]
-  from checks import worldidx
-
-  enc = worldidx.load_encodable()
-  return report.run_check(PID, units, tier, seed, unit_timeout=120 if tier == "quick" else 600, on_timeout=lambda n: "error" if (enc is not None and n in enc) else "skip")
+    units = [u for u in units if any(o in u[0] for o in only)]
+  return report.run_check(PID, units, tier, seed)
